@@ -77,7 +77,15 @@ def run_P(pid, tier, world, known_regexes=()):
             continue
         for t in [c.target] + c.also:
             reports.append(eng.verify(c, t))
-    obs = [o for r in reports for o in r.obligations]
+    # an obligation may be attributed to some of its contract's properties only (label prefix -> property ids):
+    # what another property owns is not this check's to discharge
+    obs = []
+    for r in reports:
+        lp = getattr(world.contracts[r.contract], "label_props", {})
+        for o in r.obligations:
+            owners = next((ps for pre, ps in lp.items() if pre in o.label), None)
+            if owners is None or pid in owners:
+                obs.append(o)
     import re
     for o in obs:
         if any(re.search(rx, o.coarse) for rx in known_regexes):
@@ -248,7 +256,7 @@ def check(pid, tier):
     shutil.rmtree(os.path.join(HERE, "replays", pid), ignore_errors=True)
 
     # ---- P
-    eng, reports, solver_wall = run_P(pid, tier, world)
+    eng, reports, solver_wall = run_P(pid, tier, world, known_regexes=[k["key_regex"] for k in known if "key_regex" in k and not k.get("input_class_contains")])
     # an obligation may be attributed to some of its contract's properties only (label prefix -> property ids)
     vcs = []
     for r in reports:
